@@ -15,6 +15,8 @@ LEVEL = "other"
 def run(ctx):
     ev = ctx.ev
     variants = ["rel"] if ctx.quick else ["rel", "rel3", "clangO2"]
+    if os.environ.get("VERIF_C14_PART1_ONLY"):      # development aid: part 1 alone (the registered commands never set it)
+        variants = []
     total_obs = 0
     publics = set()
     leaks_total = 0
